@@ -77,6 +77,7 @@ func (service *importCache) getOrAdd(key string, add func() (rel.Expr, error)) (
 			}
 			// Another goroutine is adding an entry.
 			service.cond.Wait()
+			afterCondWake(&service.mutex)
 		} else {
 			break
 		}
